@@ -283,6 +283,7 @@ func (w *world) foreignSweep(l, kind int, rng *rand.Rand) {
 				}
 			}
 		}
+		r.Eval(1) // one RPC kind exercised with a foreign cluster id (direct and through gRPC)
 		r.Distinct("foreign|" + k.name + "|" + fmt.Sprint(kind%5))
 	}
 	// streaming kinds, through gRPC only
